@@ -58,7 +58,9 @@ type vsrvScript struct {
 	ALPN          *string // nil = first client protocol the server Config lists (or none); &"" = none
 	ALPSCodepoint uint16
 	ALPSData      []byte
-	ExtraEEExts   []vfExt
+	// ALPSFirst: application_settings is listed before the ALPN extension (RFC 8446 allows any order)
+	ALPSFirst   bool
+	ExtraEEExts []vfExt
 	// ---- Certificate ----
 	Cert *Certificate // nil = cfg.Certificates[0]
 	// CertBody, when set, rewrites the body of the Certificate message (after the 4-byte header) before it is sent
@@ -473,7 +475,11 @@ func vsrvRun13(ctx context.Context, c *Conn, s *vsrvScript) error {
 		eeExts = append(eeExts, vfExt{Type: extensionALPN, Body: b.b})
 	}
 	if s.ALPSCodepoint != 0 {
-		eeExts = append(eeExts, vfExt{Type: s.ALPSCodepoint, Body: s.ALPSData})
+		if s.ALPSFirst {
+			eeExts = append([]vfExt{{Type: s.ALPSCodepoint, Body: s.ALPSData}}, eeExts...)
+		} else {
+			eeExts = append(eeExts, vfExt{Type: s.ALPSCodepoint, Body: s.ALPSData})
+		}
 	}
 	eeExts = append(eeExts, s.ExtraEEExts...)
 	eb := &vsrvB{}
